@@ -2,6 +2,7 @@ package types
 
 import (
 	"bytes"
+	"encoding/binary"
 	"encoding/json"
 	"fmt"
 	"io"
@@ -571,6 +572,16 @@ func appendKey(b *bytes.Buffer, v px.Value) {
 	} else {
 		panic(px.Error(px.InvalidHashKey, issue.H{`type`: v.PType()}))
 	}
+}
+
+// appendElementKey appends the key of an element of a container preceded by its length so that the keys of
+// two containers are equal only when their elements have equal keys, one by one.
+func appendElementKey(b *bytes.Buffer, v px.Value) {
+	eb := bytes.NewBuffer(make([]byte, 0, 16))
+	appendKey(eb, v)
+	var lb [binary.MaxVarintLen64]byte
+	b.Write(lb[:binary.PutUvarint(lb[:], uint64(eb.Len()))])
+	b.Write(eb.Bytes())
 }
 
 // Special hash key generation for type parameters which might be hashes
